@@ -80,10 +80,16 @@ def run_real(kinds, inp, shared=False):
     # upper bound on what ONE stage can be handed if every event is delivered once: dup doubles, expand triples,
     # a gen context adds one event; anything beyond it is delivered more than once (a changed engine or base
     # context can make that grow without bound - stop instead of running out of memory)
-    ub = len(inp) + 1
+    ub, fac = len(inp) + 1, 1
     for k in kinds:
-        ub = ub * {"dup": 2, "expand": 3}.get(k, 1) + 1
+        f = {"dup": 2, "expand": 3}.get(k, 1)
+        ub, fac = ub * f + 1, fac * f
     limit = (len(kinds) + 1) * ub + 64
+    n_tp = sum(k in ("collect", "apply") for k in kinds)
+    if n_tp:
+        # the test two-phase context releases what `apply` held at EVERY drain after its first one, so held
+        # events legitimately pass the later stages once more per registration of that context
+        limit = min((len(kinds) + 1) * (len(inp) + len(kinds) + 1) * fac ** (n_tp + 1) + 64, 400_000)
 
     def guard(n):
         if n > limit:
